@@ -123,6 +123,9 @@ func rangeDocset(r *Rand, kind string, two bool) eCase {
 		c.Queries = append(c.Queries, eQuery{A: a})
 	}
 	c.Queries = append(c.Queries, eQuery{})
+	if r.Chance(20) {
+		c = withPre(c)
+	}
 	return c
 }
 
